@@ -325,14 +325,17 @@ package httpserver
 //@   loop 1 decreases len(remainingPath)
 
 //@ unit server_servehttp frames=on props=C12 filter=`httpserver\.Server\)\.ServeHTTP$`
+//@ use @verif/specs/stdlib.spec:nethttp_api
 //@ // the replacer constructor only wraps the request body for {request_body}; nothing this handler reads (explicit frame-empty assumption)
 //@ func NewReplacer
+//@   requires r != nil
 //@   ensures result != nil
 //@ ghost errCalls int
 //@ ghost lastErr int
 //@ ghost panicked int
 
 //@ func DefaultErrorFunc
+//@   requires w != nil
 //@   modifies ghost:errCalls, ghost:lastErr
 //@   ensures errCalls == old(errCalls) + 1 && lastErr == status
 
@@ -341,7 +344,7 @@ package httpserver
 
 //@ func (*Server).ServeHTTP
 //@   modifies ghost:errCalls, ghost:lastErr
-//@   requires s != nil && r != nil && r.URL != nil && panicked == 0
+//@   requires s != nil && w != nil && r != nil && r.URL != nil && panicked == 0
 //@   ensures [at_most_one_error_body] errCalls <= old(errCalls) + 1
 //@   ensures [panic_gives_500] panicked == 1 ==> (errCalls == old(errCalls) + 1 && lastErr == 500)
 
@@ -609,12 +612,14 @@ package httpserver
 //@   modifies ghost:chainCalls
 //@   ensures chainCalls == old(chainCalls) + 1
 //@ func WriteSiteNotFound
+//@   requires w != nil && r != nil
 //@   modifies ghost:notFound
 //@   ensures notFound == old(notFound) + 1
 //@ func (*vhostTrie).Match
 //@   pure reads vhostTrie.edges, vhostTrie.site, vhostTrie.path, vhostTrie.fallbackHosts, E:string
 //@   requires t != nil
 //@ func trimPathPrefix
+//@   requires u != nil
 //@   ensures result != nil
 //@ extern (*net/http.Request).WithContext
 //@   ensures result != nil && result.URL == r.URL && result.Host == r.Host && result.TLS == r.TLS && result.RemoteAddr == r.RemoteAddr && result.Header == r.Header
@@ -629,7 +634,7 @@ package httpserver
 //@ define strictMismatch(hn string) bool = vh(hn) != nil && !vh(hn).TLS.InsecureDisableSNIMatching && old(r.TLS) != nil && vh(hn).TLS.ClientAuth != 0 && strings.ToLower(old(r.TLS.ServerName)) != strings.ToLower(hn)
 
 //@ func (*Server).serveHTTP
-//@   requires s != nil && r != nil && r.URL != nil && s.vhosts != nil && s.Server != nil
+//@   requires s != nil && w != nil && r != nil && r.URL != nil && s.vhosts != nil && s.Server != nil
 //@   requires forall(k, 0, len(s.sites), s.sites[k] != nil && s.sites[k].TLS != nil && s.sites[k].TLS.Issuer != nil)
 //@   // representation invariant of the server (established by NewServer/InspectServerBlocks, assumed here): every site the trie can return carries a TLS config
 //@   requires forallT(k, string, ret(0, s.vhosts.Match(k)) != nil ==> ret(0, s.vhosts.Match(k)).TLS != nil)
